@@ -222,7 +222,9 @@ impl Scheduler {
         let tracker_data_req = tracker.get_data_requests();
         let mut uniq = HashSet::with_capacity(tracker_data_req.len());
 
-        let all_uniq = tracker_data_req.iter().all(|x| uniq.insert(x.filter_idx));
+        // `t` and `$share/group/t` legitimately share a filter_idx (same commitlog):
+        // a duplicate is two requests for the same subscription filter
+        let all_uniq = tracker_data_req.iter().all(|x| uniq.insert(&x.filter));
 
         if !all_uniq {
             Some(&tracker.data_requests)
